@@ -517,11 +517,12 @@ func (s *HASyncer) startStandby() error {
 func (s *HASyncer) standbyLoop() {
 	defer s.wg.Done()
 
-	fullSyncTicker := time.NewTicker(s.config.FullSyncInterval)
-	if s.config.FullSyncInterval == 0 {
-		fullSyncTicker.Stop()
+	// FullSyncInterval 0 disables the periodic full sync (time.NewTicker panics
+	// on a non-positive interval, so the ticker is only created when it is set)
+	if s.config.FullSyncInterval > 0 {
+		fullSyncTicker := time.NewTicker(s.config.FullSyncInterval)
+		defer fullSyncTicker.Stop()
 	}
-	defer fullSyncTicker.Stop()
 
 	for {
 		select {
